@@ -68,6 +68,11 @@ type PosMixin struct {
 	Tokens []lexer.Token
 }
 
+// PosDeep1 / PosDeep2 put the mixin one and two levels further down: a production that embeds PosDeep2 has
+// its Pos / EndPos / Tokens three embedded structs deep.
+type PosDeep1 struct{ PosMixin }
+type PosDeep2 struct{ PosDeep1 }
+
 // NamedPos is a position type convertible from lexer.Position (C11: "convertible position types").
 type NamedPos lexer.Position
 
@@ -106,6 +111,8 @@ func (tc TypeCache) GoType(p *Prod) reflect.Type {
 	switch {
 	case p.PosStyle == 1 && p.HasPos:
 		fs = append(fs, reflect.StructField{Name: "PosMixin", Type: reflect.TypeOf(PosMixin{}), Anonymous: true})
+	case p.PosStyle == 3 && p.HasPos:
+		fs = append(fs, reflect.StructField{Name: "PosDeep2", Type: reflect.TypeOf(PosDeep2{}), Anonymous: true})
 	case p.PosStyle == 2 && p.HasPos:
 		fs = append(fs, reflect.StructField{Name: "Pos", Type: nposT}, reflect.StructField{Name: "EndPos", Type: nposT}, reflect.StructField{Name: "Tokens", Type: toksT})
 	default:
